@@ -301,9 +301,9 @@ class Ctx:
             seen = set()
             for m in re.finditer(r'^<<"BAD", (\d+), (.*)>>\s*$', text, re.M):
                 ln = start + int(m.group(1)) - 1
-                if ln in seen:
+                if (ln, m.group(2)) in seen:      # TLC may evaluate an action more than once
                     continue
-                seen.add(ln)
+                seen.add((ln, m.group(2)))
                 bad.append(self._mkbad(recs, resets, ln, m.group(2)))
             for m in re.finditer(r'^<<"DRIFT", (\d+), (.*)>>\s*$', text, re.M):
                 self.drift.append({"line": start + int(m.group(1)) - 1, "what": m.group(2)})
